@@ -815,6 +815,53 @@ def _search_pos(t, subject):
     return None
 
 
+def _addends(t):
+    """flatten a sum into its terms"""
+    t = strip_refs(t)
+    if isinstance(t, tuple) and t and t[0] == "binop" and t[1] == "Add":
+        return _addends(t[2]) + _addends(t[3])
+    return [t]
+
+
+def _rebase(sref, subj, rg, depth):
+    """index(S, lo..hi) whose bounds are sums containing one position p found by searching S itself: rewritten as a slice of the remainder S[p..],
+    with p subtracted from both bounds, and normalised again"""
+    kind = rg[1]
+    los = _addends(rg[2][0]) if kind in ("Range", "RangeFrom") else []
+    his = _addends(rg[2][1 if kind == "Range" else 0]) if kind in ("Range", "RangeTo") else []
+
+    def is_base(x):
+        return _search_pos(x, subj) is not None and _search_pos(x, subj) not in (ZERO, LEN) and _search_pos(x, subj)[0] in ("find", "rfind") and _search_pos(x, subj)[2] == 0
+    bases = [x for x in los + his if is_base(x)]
+    if not bases:
+        return None
+    P = bases[0]
+    if kind in ("Range", "RangeFrom") and P not in los:
+        return None
+    if kind in ("Range", "RangeTo") and his and P not in his:
+        return None
+
+    def minus(parts):
+        rest = list(parts)
+        rest.remove(P)
+        if not rest:
+            return ("const", "usize", 0)
+        t = rest[0]
+        for x in rest[1:]:
+            t = ("binop", "Add", t, x)
+        return t
+    rem = ("call", "core::str::traits::<impl std::ops::Index<I> for str>::index", ("std::ops::RangeFrom<usize>",),
+           (sref, ("agg", "adt", "std::ops::RangeFrom", "RangeFrom", (P,), ("start",))), None)
+    if kind == "RangeFrom":
+        new_rg = ("agg", "adt", "std::ops::RangeFrom", "RangeFrom", (minus(los),), ("start",))
+    elif kind == "RangeTo":
+        new_rg = ("agg", "adt", "std::ops::RangeTo", "RangeTo", (minus(his),), ("end",))
+    else:
+        new_rg = ("agg", "adt", "std::ops::Range", "Range", (minus(los), minus(his)), ("start", "end"))
+    synth = ("call", "core::str::traits::<impl std::ops::Index<I> for str>::index", ("std::ops::Range<usize>",), (rem, new_rg), None)
+    return substr(synth, depth + 1)
+
+
 def _compose(inner, outer):
     """outer = (start, end) relative to the substring inner = (S, start, end)"""
     S, a, b = inner
@@ -883,6 +930,11 @@ def substr(term, depth=0):
             base = substr(a[0], depth + 1) or (subj, ZERO, LEN)
             lo = _search_pos(rg[2][0], subj) if rg[1] in ("Range", "RangeFrom") else ZERO
             hi = _search_pos(rg[2][1 if rg[1] == "Range" else 0], subj) if rg[1] in ("Range", "RangeTo") else LEN
+            if (lo is None or hi is None) and depth < 5:
+                # absolute positions computed by hand: S[p + a .. p + S[p..].find(sep) + b] is the part [a .. find(sep) + b] of the remainder S[p..]
+                rb = _rebase(a[0], subj, rg, depth)
+                if rb is not None:
+                    return rb
             if lo is not None and hi is None and rg[1] in ("Range", "RangeTo") and (lo == ZERO or lo[0] == "const"):
                 # part[c1 .. part.len() - c2] of a part that ends at a searched position: the end moves back by c2
                 h = strip_refs(rg[2][1 if rg[1] == "Range" else 0])
